@@ -52,6 +52,11 @@ Violations(e) ==
   \cup (IF sent /\ e.amb = 1 /\ NDerivCapped(G, W) < 2 THEN {"C05: ambiguous_p set for an input with one derivation"} ELSE {})
   \cup (IF sent /\ e.root = 1 /\ e.over = 0 /\ e.amb = 0 /\ Cardinality(trees) >= 2
         THEN {"C05: ambiguous_p clear although the result denotes two translations"} ELSE {})
+  \cup (IF sent /\ e.root = 1 /\ e.over = 0 /\ e.one = 0 /\ e.cost = 0 /\ "inj" \in DOMAIN e /\ e.inj = 1
+           /\ Cardinality(trees) # NDerivCappedAt(G, W, e.cap)
+        THEN {IF Cardinality(trees) < NDerivCappedAt(G, W, e.cap)
+              THEN "C03: fewer denoted translations than derivations (every derivation has its own translation here)"
+              ELSE "C03: more denoted translations than derivations"} ELSE {})
   \cup (IF e.root = 1 /\ trees = {} THEN {"C02/C03: result denotes no tree"} ELSE {})
   \cup (IF e.one = 1 /\ e.root = 1 /\ Cardinality(trees) > 1 THEN {"C02: one_parse result denotes several trees"} ELSE {})
   \cup (IF sent /\ e.root = 1 /\ \E t \in trees : ~IsTranslation(G, W, t)
